@@ -396,10 +396,15 @@ func fopOnNumber(rec []byte, qValDte *DtypeEnclosure,
 		return op == NotEquals, nil
 	}
 
-	// now create a float (highest level for rec, only if we need to based on query
+	// The query literal is a float: compare as floats. (Comparing a stored
+	// integer with the literal's integer part would make x=1.5 match 1.)
 	if qValDte.Dtype == SS_DT_FLOAT && recDte.Dtype != SS_DT_FLOAT {
-		// todo need to check err
-		recDte.FloatVal, _ = dtu.ConvertToFloat(recDte.UnsignedVal, 64)
+		if recDte.Dtype == SS_DT_SIGNED_NUM {
+			recDte.FloatVal = float64(recDte.SignedVal)
+		} else {
+			recDte.FloatVal = float64(recDte.UnsignedVal)
+		}
+		recDte.Dtype = SS_DT_FLOAT
 	}
 
 	return compareNumberDte(recDte, qValDte, op)
